@@ -11,6 +11,13 @@ CLAIMED = {
          "47 instruction variants; a necessary condition of pass soundness, not the passes' algorithms.",
          "Trusted: syn; spec/ir_effects.txt written from instruction.rs doc comments; three reviewed exceptions named in rules/C03.py.",
          "DESIGN.md §3 C03"),
+ "C04": ("E-TAB+E-MIR", "other", "pass-literal extraction (syn) + MIR cones of every pass runner for get_analysis_result::<T> instantiations; CFG path rule on PassManager::run / actually_run; who-builds-terminators pairing rule",
+         "Decides: every analysis result a pass reads in reach(runner) is produced by one of its transitively declared deps at a compatible scope; "
+         "passes are registered dependency-first, deps are analyses, pipelines name only registered passes; PassManager::run calls Context::verify "
+         "on every path between two passes and propagates its error; a modifying transform invalidates cached analyses of its scope; the verifier's "
+         "dispatch has no catch-all; hand-built branch terminators register their CFG edges. That each pass's output verifies is not decided.",
+         "Trusted: syn; rustc MIR; the analysis cache as written.",
+         "DESIGN.md §3 C04"),
  "C05": ("E-TAB", "other", "writer/reader agreement: printer match tables vs peg grammar (keyword inverse, field coverage, ordered-choice shadowing, capture use)",
          "Decides that for every compiler-producible instruction the IR printer emits every field unconditionally under a mnemonic that "
          "leads an un-shadowed alternative of the grammar, keyword tables are inverse, and grammar captures reach the AST. Necessary for "
